@@ -166,8 +166,8 @@ fn seen_of_panic(m: String) -> Seen {
 fn do_query(dbh: &Arc<LocustDB>, text: &str) -> Seen {
     let dbh = dbh.clone();
     let t = text.to_string();
-    let r = db::with_deadline(CALL_DEADLINE + Duration::from_secs(1), move || {
-        db::runtime().block_on(async move { tokio::time::timeout(CALL_DEADLINE, dbh.run_query(&t, false, true, vec![])).await })
+    let r = db::with_deadline(CALL_DEADLINE, move || {
+        db::runtime().block_on(async move { tokio::time::timeout(CALL_DEADLINE + db::HARD_EXTRA + Duration::from_secs(5), dbh.run_query(&t, false, true, vec![])).await })
     });
     match r {
         Ok(Ok(Ok(_))) => Seen::Ok,
@@ -207,7 +207,7 @@ fn do_ingest(dbh: &Arc<LocustDB>, kind: &str) -> Seen {
 
 fn do_flush(dbh: &Arc<LocustDB>) -> Seen {
     let dbh = dbh.clone();
-    match db::with_deadline(CALL_DEADLINE + Duration::from_secs(1), move || dbh.force_flush()) {
+    match db::with_deadline(CALL_DEADLINE, move || dbh.force_flush()) {
         Ok(()) => Seen::Ok,
         Err(db::CallError::Panic(m)) => seen_of_panic(m),
         Err(db::CallError::Deadline) => Seen::Hang,
@@ -216,12 +216,12 @@ fn do_flush(dbh: &Arc<LocustDB>) -> Seen {
 
 fn do_stats(dbh: &Arc<LocustDB>, memtree: bool) -> Seen {
     let dbh = dbh.clone();
-    let r = db::with_deadline(CALL_DEADLINE + Duration::from_secs(1), move || {
+    let r = db::with_deadline(CALL_DEADLINE, move || {
         db::runtime().block_on(async move {
             if memtree {
-                tokio::time::timeout(CALL_DEADLINE, dbh.mem_tree(2, None)).await.map(|r| r.map(|_| ()))
+                tokio::time::timeout(CALL_DEADLINE + db::HARD_EXTRA + Duration::from_secs(5), dbh.mem_tree(2, None)).await.map(|r| r.map(|_| ()))
             } else {
-                tokio::time::timeout(CALL_DEADLINE, dbh.table_stats()).await.map(|r| r.map(|_| ()))
+                tokio::time::timeout(CALL_DEADLINE + db::HARD_EXTRA + Duration::from_secs(5), dbh.table_stats()).await.map(|r| r.map(|_| ()))
             }
         })
     });
@@ -279,7 +279,14 @@ fn do_request(dbh: &Arc<LocustDB>, req: &Sx) -> Seen {
     }
 }
 
+/// panics of background threads that die on an already poisoned ingestion lock (the flush thread's
+/// periodic wake-up) are consequences of earlier damage, not lost pool workers
+fn is_background_poison(p: &str) -> bool {
+    p.starts_with("src/scheduler/inner_locustdb.rs") && (p.contains("PoisonError") || p.contains("RecvError"))
+}
+
 fn emit(tag: &str, round: usize, what: &str, seen: &Seen, panics: &[String], ms: u128) {
+    let panics: Vec<String> = panics.iter().filter(|p| !is_background_poison(p)).cloned().collect();
     let detail = match seen {
         Seen::Panic(site, msg) => format!("{}: {}", site, msg),
         _ => panics.first().cloned().unwrap_or_default(),
@@ -583,7 +590,7 @@ static PREFETCH: Mutex<Option<Map<String, std::sync::mpsc::Receiver<(String, boo
 
 fn total_deadline(sc: &Sx) -> Duration {
     let rounds = sc.items().len().saturating_sub(3) as u64;
-    Duration::from_secs(60 + 20 * rounds)
+    Duration::from_secs(120 + 30 * rounds)
 }
 
 /// which locks a caller-side panic held, from the request kind and the panic site (trusted table)
@@ -623,7 +630,7 @@ impl Suite for Canary {
     }
     fn generate(&self, seed: u64, tier: &str) -> Vec<Case> {
         let mut r = Rng::new(seed ^ 0xC11_0001);
-        let n = if tier == "thorough" { 2_000 } else { 260 };
+        let n = if tier == "thorough" { 1_200 } else { 260 };
         let mut cases = vec![];
         // every known-finding request once, with 1 and with 2 workers, followed by two more rounds
         for (id, rq) in damaging_pool() {
